@@ -290,10 +290,86 @@ def rule_r3(F, rep):
                           "before the call" % (tail, "does" if forced else "does not"), run.loc)
 
 
+def _closure_args_of(fn, callee_pred):
+    """closure defs built in `fn` and handed (directly) to a call whose callee satisfies callee_pred"""
+    body = fn.body
+    built = {}
+    for bb, si, st in body.assigns():
+        rv = st["rv"]
+        if rv["k"] == "agg" and rv["ak"] == "closure":
+            built[st["p"]["l"]] = rv["d"]
+    out = set()
+    for bb, t in body.calls():
+        n = callee_name(t) or ""
+        if not callee_pred(n):
+            continue
+        for a in t["xs"]:
+            if a["k"] in ("move", "copy") and not a["p"] and a["l"] in built:
+                out.add(built[a["l"]])
+    return out
+
+
+def rule_r4(F, rep):
+    R = rep.rule("C04.R4", "the delayed expressions of an object (its locals and its field values) exist once per object: "
+                 "a function that allocates pending thunks for ObjectLayer.locals or ObjectFieldData.expr runs only as "
+                 "(or below) the initialiser of a once-cell (`OnceCell::get_or_init`), so a second request gets the "
+                 "memoised environment / thunk instead of a fresh pending copy that would be evaluated again")
+    LAYER = D + "ObjectLayer"
+    FIELD = D + "ObjectFieldData"
+    readers = set()
+    for adt, fld in ((LAYER, "locals"), (FIELD, "expr")):
+        try:
+            rs = cg.who_reads_field(F, adt, fld, crates=("rsjsonnet_lang",))
+        except Exception:
+            rs = []
+        for fn, bb, si, st in rs:
+            readers.add(fn.q)
+    creators = []
+    for q in sorted(readers):
+        fn = F.fn(q)
+        mk = [callee_name(t) or "" for bb, t in fn.body.calls()]
+        if any("new_pending" in n for n in mk):
+            creators.append(fn)
+    rep.floor(R, len(creators), 2, "functions that allocate an object's pending thunks")
+    # closures that are once-cell initialisers
+    once_init = set()
+    for fn in F.fn_list:
+        if fn.crate.name != "rsjsonnet_lang":
+            continue
+        once_init |= _closure_args_of(fn, lambda n: n.endswith("OnceCell>::get_or_init") or n.endswith("OnceCell>::get_or_try_init"))
+    G = cg.get(F)
+
+    def guarded(q, depth, seen):
+        """every way of reaching q passes a once-cell initialiser"""
+        if q in once_init:
+            return True, None
+        if depth == 0 or q in seen:
+            return False, q
+        callers = {(d, k) for d, k, site in G.callers_of_def(q) if k in ("call", "closure", "reify", "indirect", "vtable")}
+        callers = {d for d, k in callers if d != q}
+        if not callers:
+            return False, q
+        for c in sorted(callers):
+            ok, why = guarded(c, depth - 1, seen | {q})
+            if not ok:
+                return False, why
+        return True, None
+
+    for fn in creators:
+        ok, why = guarded(fn.q, 4, frozenset())
+        rep.ob(R, "memoised|%s" % fn.q, ok, {"creator": fn.q, "at": fn.loc})
+        if not ok:
+            rep.violation(R, "%s|not-memoised|via|%s" % (fn.q, why),
+                          "%s allocates the pending thunks of an object's locals / field value and is reachable through %s "
+                          "without passing a once-cell initialiser: every request builds fresh pending thunks, so the same "
+                          "object local / field expression is evaluated again" % (fn.q, why), fn.loc)
+
+
 def run(F, rep, tier):
     rule_r1(F, rep)
     rule_r2(F, rep)
     rule_r3(F, rep)
+    rule_r4(F, rep)
     rep.assume("the rewrite-invariance consequence (naming, identity functions, dead code) needs execution and is not "
                "decided; builtins' internal evaluation order is not decided")
     rep.trust("Jsonnet specification: laziness positions, transcribed as rules/c04.py:LAZY")
